@@ -64,7 +64,7 @@ Print Assumptions C06_dominator_chain_nonvacuous.
    (the code finds it with one augmenting path and a residual search; the answer is canonical and the model computes it from the
    definition with the verified closure; the E3 stream E3_dominator_sequences compares the two arc by arc).  Precondition: t is
    reachable from v -- on a dead-end graph the code's find_path does not arrive and find_idom raises IndexError (DESIGN 10.3). *)
-From FP Require Import DomAlg.
+From FP Require Import DomAlg SafetyProofs1 SafetyProofs2.
 Theorem C06_find_idom_is_the_first_dominator : forall (G : graph) (v t : node) (bs : list edge),
   (exists w, st_walk G v t w) -> dom_order G v t bs -> first_bridge G v t = hd_error bs.
 Proof. exact first_bridge_correct. Qed.
@@ -101,3 +101,55 @@ Example C06_dominator_sequences_on_the_cycle_graph :
   dominator_sequences cycG 0%N 3%N [(1, 2); (4, 1)]%N = [[(0, 4); (4, 1); (1, 2); (2, 3)]%N].
 Proof. exact cyc_sequences. Qed.
 Print Assumptions C06_dominator_sequences_on_the_cycle_graph.
+
+(* ---- audit (second half): instances of exactly the hypotheses of the theorems above, on the graph with the cycle 1 -> 2 -> 1 ---- *)
+(* C06_non_dominator_is_avoidable: the arc (1, 2), d = (0, 1): neither an s-dominator (0 -> 4 -> 1 avoids it) nor a t-dominator *)
+Example C06_non_dominator_hypotheses_hold :
+  In (1, 2)%N cycG /\ (exists w, st_walk cycG 0%N 1%N w) /\ (exists w, st_walk cycG 2%N 3%N w) /\ (0, 1)%N <> (1, 2)%N /\
+  ~ dominates_to cycG 0%N 1%N (0, 1)%N /\ ~ dominates_to cycG 2%N 3%N (0, 1)%N /\
+  exists W, st_walk cycG 0%N 3%N W /\ In (1, 2)%N W /\ ~ In (0, 1)%N W.
+Proof.
+  assert (W1 : st_walk cycG 0%N 1%N [(0, 4); (4, 1)]%N) by (split; [repeat constructor|intros x [<-|[<-|[]]]; cbn; tauto]).
+  assert (W2 : st_walk cycG 2%N 3%N [(2, 3)]%N) by (split; [repeat constructor|intros x [<-|[]]; cbn; tauto]).
+  assert (N1 : ~ dominates_to cycG 0%N 1%N (0, 1)%N) by (intros H; specialize (H _ W1); cbn in H; intuition discriminate).
+  assert (N2 : ~ dominates_to cycG 2%N 3%N (0, 1)%N) by (intros H; specialize (H _ W2); cbn in H; intuition discriminate).
+  repeat split; try assumption; try (cbn; tauto); try discriminate; try (eexists; eassumption).
+  apply C06_non_dominator_is_avoidable; try assumption; try (cbn; tauto); try discriminate; eexists; eassumption.
+Qed.
+Print Assumptions C06_non_dominator_hypotheses_hold.
+
+(* C06_dominator_sequences_are_safe: its hypothesis (every arc of X lies between source and sink) holds for X = {(1,2), (4,1)} on the
+   cycle graph, and the one sequence the model returns there is safe (a non-empty X, a non-empty result) *)
+Example C06_dominator_sequences_hypothesis_holds :
+  (forall e, In e [(1, 2); (4, 1)]%N -> (exists w, st_walk cycG 0%N (fst e) w) /\ (exists w, st_walk cycG (snd e) 3%N w)) /\
+  safe_for_edges cycG 0%N 3%N [(1, 2); (4, 1)]%N [(0, 4); (4, 1); (1, 2); (2, 3)]%N.
+Proof.
+  assert (H : forall e, In e [(1, 2); (4, 1)]%N -> (exists w, st_walk cycG 0%N (fst e) w) /\ (exists w, st_walk cycG (snd e) 3%N w)).
+  { intros e [<-|[<-|[]]]; cbn [fst snd]; split.
+    - exists [(0, 1)]%N. split; [repeat constructor|intros x [<-|[]]; cbn; tauto].
+    - exists [(2, 3)]%N. split; [repeat constructor|intros x [<-|[]]; cbn; tauto].
+    - exists [(0, 4)]%N. split; [repeat constructor|intros x [<-|[]]; cbn; tauto].
+    - exists [(1, 2); (2, 3)]%N. split; [repeat constructor|intros x [<-|[<-|[]]]; cbn; tauto]. }
+  split; [exact H|]. apply (C06_dominator_sequences_are_safe cycG 0%N 3%N _ H). rewrite cyc_sequences. left. reflexivity.
+Qed.
+Print Assumptions C06_dominator_sequences_hypothesis_holds.
+
+(* degenerate input, outside the precondition "t reachable from v": from the dead end 3 every arc is vacuously a dominator, there is NO
+   dominator order (no finite list holds all arcs of the type), and first_bridge returns a normal value anyway - which is why
+   C06_find_idom_is_the_first_dominator and the chain theorems carry the reachability premise (the code raises IndexError there) *)
+Example C06_dead_end_is_outside_the_precondition :
+  ~ (exists w, st_walk cycG 3%N 0%N w) /\ (forall d, dominates_to cycG 3%N 0%N d) /\ (forall bs, ~ dom_order cycG 3%N 0%N bs) /\
+  first_bridge cycG 3%N 0%N = None /\ first_bridge cycG 2%N 0%N = Some (2, 1)%N.
+Proof.
+  assert (NR : ~ (exists w, st_walk cycG 3%N 0%N w)).
+  { intros H. apply reachb_correct in H. vm_compute in H. discriminate. }
+  assert (All : forall d, dominates_to cycG 3%N 0%N d) by (intros d w Hw; exfalso; apply NR; exists w; exact Hw).
+  split; [exact NR|]. split; [exact All|]. split; [|split; vm_compute; reflexivity].
+  intros bs (_ & Hin & _).
+  set (m := fold_right N.max 0%N (map fst bs)).
+  assert (Hm : forall d, In d bs -> (fst d <= m)%N).
+  { unfold m. clear. induction bs as [|a l IH]; intros d Hd; [destruct Hd|]. cbn [map fold_right]. destruct Hd as [<-|Hd]; [lia|].
+    specialize (IH d Hd). lia. }
+  specialize (Hm (m + 1, 0)%N (proj2 (Hin _) (All _))). cbn [fst] in Hm. lia.
+Qed.
+Print Assumptions C06_dead_end_is_outside_the_precondition.
